@@ -13,9 +13,9 @@ Reading guide.  `d` is the original matrix, `order` the non-best alternatives in
 original ranking (an input: the code's sort is unstable, see *Order oracle* in the model), `draws`
 the stream of uniform draws, `rep` = `repeat`, `strat` = `last_diff_strategy`.
 `run strat fuel d order draws rep = .ok (es, p)`: the checker produced the experiments `es` and
-consumed `p` draws.  Hypotheses used where needed:
-`hstrat` — the strategy maps non-negative gaps to a non-negative bound (`median`, `mean`, `max`, `min` do);
-`hu` — every draw is in `[0, 1)`.
+consumed `p` draws.  Hypothesis used where needed: `hu` — every draw is in `[0, 1)`.  Nothing is
+assumed of the strategy: a callable that yields a negative bound is refused (`ValueError`, by NumPy's
+`uniform(0, b)`), so an accepted mutation always has non-negative gaps.
 Any number of alternatives and criteria, any `rep`, any `fuel`. -/
 namespace Skc.C19
 open Skc Skc.RankInv
@@ -89,26 +89,26 @@ theorem order_nodup {ralts : List String} {rvalues : List Nat} {order : List Str
 
 /-- **Worsening direction.**  The noise of a maximised criterion is `≤ 0`, that of a minimised
 criterion `≥ 0`. -/
-theorem noise_direction {strat : List α → α} (hstrat : ∀ l, (∀ x ∈ l, 0 ≤ x) → 0 ≤ strat l)
+theorem noise_direction {strat : List α → α}
     {fuel : Nat} {d : DM α} {order : List String} {draws : Nat → α} (hu : ∀ i, 0 ≤ draws i ∧ draws i < 1) {rep : Nat}
     {es : List (Exp α)} {p : Nat} (h : run strat fuel d order draws rep = .ok (es, p)) :
     ∀ e ∈ es, ∀ (j : Nat) (o : Obj) (x : α), d.objs[j]? = some o → e.noise[j]? = some x →
       (o = Obj.max → x ≤ 0) ∧ (o = Obj.min → 0 ≤ x) := by
   intro e he
   obtain ⟨k, g, -, hk, -, hc, -⟩ := exp_job h he
-  exact core_direction hc (maxAbsNoises_nonneg strat hstrat d order g (List.mem_of_getElem? hk)) hu
+  exact core_direction hc hu
 
 /-- **In bounds.**  The experiment that mutates the `k`-th alternative of `order` has one noise per
 criterion and `|noise j| ≤ gap j`, the `k`-th row of the gap table: the absolute gap to the
 next-ranked alternative, for the last one the configured aggregate of the other gaps. -/
-theorem noise_bound {strat : List α → α} (hstrat : ∀ l, (∀ x ∈ l, 0 ≤ x) → 0 ≤ strat l)
+theorem noise_bound {strat : List α → α}
     {fuel : Nat} {d : DM α} {order : List String} {draws : Nat → α} (hu : ∀ i, 0 ≤ draws i ∧ draws i < 1) {rep : Nat}
     {es : List (Exp α)} {p : Nat} (h : run strat fuel d order draws rep = .ok (es, p)) :
     ∀ e ∈ es, ∃ (k : Nat) (g : List α), order[k]? = some e.mutated ∧ (maxAbsNoises strat d order)[k]? = some g ∧
       e.noise.length = g.length ∧ ∀ (j : Nat) (b x : α), g[j]? = some b → e.noise[j]? = some x → |x| ≤ b := by
   intro e he
   obtain ⟨k, g, hk1, hk, -, hc, -⟩ := exp_job h he
-  obtain ⟨hl, hb⟩ := core_bounded hc (maxAbsNoises_nonneg strat hstrat d order g (List.mem_of_getElem? hk)) hu
+  obtain ⟨hl, hb⟩ := core_bounded hc hu
   exact ⟨k, g, hk1, hk, hl, fun j b x hb1 hx => by simpa using hb j b x hb1 hx⟩
 
 /-- the gap table itself: row `k < n−2` is `|row (order k) − row (order (k+1))|`, criterion by criterion -/
@@ -264,21 +264,39 @@ theorem mutate_refuses (fuel : Nat) (d : DM α) (a : String) (g : List α) (draw
   rintro ⟨x, hx, h0⟩
   exact hg x hx h0
 
-/-- … it is the only case in which it answers `ValueError` … -/
+/-- … the only other refusal is a negative bound, which NumPy's `uniform(0, b)` rejects (only a
+custom strategy can produce one): `ValueError` exactly when no gap is `> 0` or some gap is `< 0` … -/
 theorem mutate_valueError_iff (fuel : Nat) (d : DM α) (a : String) (g : List α) (draws : Nat → α) (pos : Nat) :
-    mutate fuel d a g draws pos = .error .valueError ↔ ∀ x ∈ g, ¬ 0 < x := by
+    mutate fuel d a g draws pos = .error .valueError ↔ (∀ x ∈ g, ¬ 0 < x) ∨ ∃ x ∈ g, x < 0 := by
   constructor
-  · intro h x hx h0
-    unfold mutate at h
-    rw [if_pos ((hasRoom_iff g).mpr ⟨x, hx, h0⟩)] at h
-    unfold mutate_v0 at h
-    split at h <;> simp at h
-  · exact mutate_refuses fuel d a g draws pos
+  · intro h
+    by_cases hroom : ∃ x ∈ g, 0 < x
+    · right
+      unfold mutate at h
+      rw [if_pos ((hasRoom_iff g).mpr hroom)] at h
+      unfold mutate_v0 at h
+      split at h
+      · rename_i hneg
+        simpa [hasNeg] using hneg
+      · split at h <;> simp at h
+    · left
+      intro x hx h0
+      exact hroom ⟨x, hx, h0⟩
+  · rintro (h | ⟨x, hx, h0⟩)
+    · exact mutate_refuses fuel d a g draws pos h
+    · unfold mutate
+      split
+      · unfold mutate_v0
+        rw [if_pos]
+        simp only [hasNeg, List.any_eq_true, decide_eq_true_eq]
+        exact ⟨x, hx, h0⟩
+      · rfl
 
-/-- … and an alternative with room is mutated at the first round whenever the draws are positive
-(the loop ends: with room, a round is rejected only if the draw of every criterion with room is `0`). -/
+/-- … and an alternative with room (and no negative bound) is mutated at the first round whenever
+the draws are positive (the loop ends: a round is rejected only if the draw of every criterion with
+room is `0`). -/
 theorem mutate_accepts (fuel : Nat) (d : DM α) (a : String) (g : List α) (draws : Nat → α) (pos : Nat)
-    (hg : ∃ x ∈ g, 0 < x) (hu : ∀ i, 0 < draws i) :
+    (hg : ∃ x ∈ g, 0 < x) (hg0 : ∀ x ∈ g, 0 ≤ x) (hu : ∀ i, 0 < draws i) :
     ∃ r, mutate (fuel + 1) d a g draws pos = .ok r := by
   have hnz : allZero (drawNoise g draws pos) = false := by
     obtain ⟨x, hx, h0⟩ := hg
@@ -292,9 +310,15 @@ theorem mutate_accepts (fuel : Nat) (d : DM α) (a : String) (g : List α) (draw
       exact (ne_of_gt (mul_pos h0 (hu _))) (hall _ hm)
     simpa using hne
   unfold mutate mutate_v0
-  rw [if_pos ((hasRoom_iff g).mpr hg)]
+  rw [if_pos ((hasRoom_iff g).mpr hg), if_neg (by rw [Bool.not_eq_true]; exact (hasNeg_false_iff g).mpr hg0)]
   simp only [drawUntilNonzero, hnz]
   exact ⟨_, rfl⟩
+
+/-- the two built-in strategies (and `max`, `min`) map non-negative gaps to a non-negative bound -/
+theorem builtin_strategies_nonneg :
+    (∀ l : List α, (∀ x ∈ l, 0 ≤ x) → 0 ≤ median l) ∧ (∀ l : List α, (∀ x ∈ l, 0 ≤ x) → 0 ≤ mean l) ∧
+    (∀ l : List α, (∀ x ∈ l, 0 ≤ x) → 0 ≤ maxL l) ∧ (∀ l : List α, (∀ x ∈ l, 0 ≤ x) → 0 ≤ minL l) :=
+  ⟨median_nonneg, mean_nonneg, maxL_nonneg, minL_nonneg⟩
 
 /-- two identical neighbours: the first has no room on any criterion -/
 theorem identical_rows_no_room (r : List α) : hasRoom (absDiff r r) = false := by
@@ -309,23 +333,27 @@ theorem mutate_diverges_zero_gaps (d : DM α) (a : String) (g : List α) (draws 
     (hg : ∀ x ∈ g, x = 0) : ∀ fuel, mutate_v0 fuel d a g draws pos = .error .outOfFuel := by
   intro fuel
   unfold mutate_v0
-  rw [drawUntilNonzero_zero fuel g draws pos hg]
+  rw [if_neg (by rw [Bool.not_eq_true]; exact (hasNeg_false_iff g).mpr (fun x hx => le_of_eq (hg x hx).symm)),
+    drawUntilNonzero_zero fuel g draws pos hg]
 
 /-- … so the pre-fix checker never returns on a matrix in which some non-best alternative has an
-all-zero gap row (`repeat ≥ 1`) -/
-theorem run_v0_diverges_zero_gaps (strat : List α → α) (d : DM α) (order : List String) (draws : Nat → α) (rep : Nat)
+all-zero gap row (`repeat ≥ 1`; the strategy maps non-negative gaps to a non-negative bound, as
+`median`, `mean`, `max`, `min` do — otherwise NumPy may raise first) -/
+theorem run_v0_diverges_zero_gaps (strat : List α → α) (hstrat : ∀ l, (∀ x ∈ l, 0 ≤ x) → 0 ≤ strat l)
+    (d : DM α) (order : List String) (draws : Nat → α) (rep : Nat)
     (hrep : 0 < rep) (k : Nat) (a : String) (g : List α) (hk : order[k]? = some a)
     (hgk : (maxAbsNoises strat d order)[k]? = some g) (hg : ∀ x ∈ g, x = 0) :
     ∀ fuel, run_v0 strat fuel d order draws rep = .error .outOfFuel := by
   intro fuel
-  -- the only error of the pre-fix loop is `outOfFuel`
+  -- with non-negative gap rows the only error of the pre-fix loop is `outOfFuel`
   have only : ∀ (js : List (Nat × String × List α)) (pos : Nat) (e : Err),
+      (∀ j ∈ js, ∀ x ∈ j.2.2, 0 ≤ x) →
       loopWith (mutate_v0 fuel) (fun e => .ok e) d draws js pos = .error e → e = .outOfFuel := by
     intro js
     induction js with
-    | nil => intro pos e h; simp [loopWith] at h
+    | nil => intro pos e _ h; simp [loopWith] at h
     | cons j js ih =>
-      intro pos e h
+      intro pos e hnn h
       obtain ⟨it, b, gb⟩ := j
       simp only [loopWith] at h
       split at h
@@ -333,6 +361,7 @@ theorem run_v0_diverges_zero_gaps (strat : List α → α) (d : DM α) (order : 
         simp only [Except.error.injEq] at h
         subst h
         unfold mutate_v0 at hm
+        rw [if_neg (by rw [Bool.not_eq_true]; exact (hasNeg_false_iff gb).mpr (hnn _ List.mem_cons_self))] at hm
         split at hm
         · simp only [Except.error.injEq] at hm; exact hm.symm
         · simp at hm
@@ -340,10 +369,13 @@ theorem run_v0_diverges_zero_gaps (strat : List α → α) (d : DM α) (order : 
         · rename_i e' hl
           simp only [Except.error.injEq] at h
           subst h
-          exact ih _ _ hl
+          exact ih _ _ (fun j hj => hnn j (List.mem_cons_of_mem _ hj)) hl
         · simp at h
+  have hnn : ∀ j ∈ jobs (order.zip (maxAbsNoises strat d order)) rep, ∀ x ∈ j.2.2, 0 ≤ x := by
+    intro j hj
+    exact maxAbsNoises_nonneg strat hstrat d order j.2.2 (List.of_mem_zip (mem_jobs hj).2).2
   cases hres : run_v0 strat fuel d order draws rep with
-  | error e => rw [only _ _ _ hres]
+  | error e => rw [only _ _ _ hnn hres]
   | ok r =>
     exfalso
     obtain ⟨es, p⟩ := r
@@ -456,8 +488,13 @@ example : (match run median 8 d₁ ["b", "c", "d"] u₀ 1 with | .error e => dec
 example : (match run_v0 median 50 d₁ ["b", "c", "d"] u₀ 1 with | .error e => decide (e = Err.outOfFuel) | .ok _ => false) = true := by
   decide +kernel
 example : ∀ fuel, run_v0 median fuel d₁ ["b", "c", "d"] u₀ 1 = .error .outOfFuel :=
-  run_v0_diverges_zero_gaps median d₁ ["b", "c", "d"] u₀ 1 (by decide) 0 "b" [0, 0] (by decide +kernel) (by decide +kernel)
-    (by decide +kernel)
+  run_v0_diverges_zero_gaps median median_nonneg d₁ ["b", "c", "d"] u₀ 1 (by decide) 0 "b" [0, 0] (by decide +kernel)
+    (by decide +kernel) (by decide +kernel)
+/-- a callable with a negative value (`mean − 1` on the `y` column of `d₀`: gaps 2, 0) is refused -/
+example : maxAbsNoises (fun l => mean l - 1) d₀ ["b", "c", "d"] = [[1, 2], [1, 0], [0, 0]] ∧
+    maxAbsNoises (fun l => mean l - 2) d₀ ["b", "c", "d"] = [[1, 2], [1, 0], [-1, -1]] := by decide +kernel
+example : (match run (fun l => mean l - 2) 8 d₀ ["b", "c", "d"] u₀ 1 with
+    | .error e => decide (e = Err.valueError) | .ok _ => false) = true := by decide +kernel
 /-- missing alternatives: appended sorted with the worst rank + 1, or refused -/
 example : (addMutationInfo (α := Rat) true ["a", "b", "c", "d"] ⟨"T", ["b", "d"], [2, 1]⟩ none).toOption.map
     (fun q => (q.alts, q.values, q.info.missing)) = some (["b", "d", "a", "c"], [2, 1, 3, 3], ["a", "c"]) := by decide +kernel
